@@ -346,7 +346,7 @@ def build_dw(case, f, reference=None, grid=None, **extra):
     op = Integration(f, grid=grid, dim=case["dim"], reference_solution=reference, print_level=Q, log_level=Q)
     sa = SpatiallyAdaptiveSingleDimensions2(a, b, operation=op, version=case["version"], rebalancing=case["rebalancing"],
                                             margin=case["margin"], rebalancing_safety_factor=case["safety"],
-                                            print_level=Q, log_level=Q, **extra)
+                                            print_level=Q, log_level=Q, **dict({} if case.get("dim_adaptive", True) else {"dim_adaptive": False}, **extra))
     return sa, op
 
 
